@@ -290,6 +290,10 @@ where
     pub fn find_lpm(&self, prefix: &P) -> Option<TrieView<'a, P, T>> {
         let mut idx = self.loc.idx();
         let mut best_match = None;
+        // nothing in this view can cover `prefix` if the first node does not.
+        if !self.table[idx].prefix.contains(prefix) {
+            return None;
+        }
         loop {
             if self.table[idx].value.is_some() {
                 best_match = Some(idx);
@@ -854,6 +858,10 @@ where
     pub fn find_lpm(self, prefix: &P) -> Result<Self, Self> {
         let mut idx = self.loc.idx();
         let mut best_match = None;
+        // nothing in this view can cover `prefix` if the first node does not.
+        if !self.table[idx].prefix.contains(prefix) {
+            return Err(self);
+        }
         loop {
             if self.table[idx].value.is_some() {
                 best_match = Some(idx);
